@@ -1,8 +1,138 @@
-(* Property C02 -- statements only (proofs in Proofs/Validate*.v). *)
-From Coq Require Import List NArith ZArith String.
-From GQL Require Import Exec.Syntax Validate.VSyntax Validate.Overlap Validate.Rules.
+(* Property C02 -- validation accepts exactly the documents that satisfy every rule.
+   Statements only; proofs are in Proofs/ValidateOverlap.v and Proofs/ValidateRules.v. *)
+From Coq Require Import List NArith ZArith String Bool.
+From GQL Require Import Exec.Syntax Validate.VSyntax Validate.Overlap Validate.OverlapSpec Validate.Rules
+     Proofs.ValidateOverlap Proofs.ValidateRules.
 Import ListNotations.
+Open Scope string_scope.
 
-Theorem C02_placeholder : forall (W : wdoc), rule_lone_anonymous W = rule_lone_anonymous W.
-Proof. reflexivity. Qed.
-Print Assumptions C02_placeholder.
+(* The overlap rule.  For every schema and every document whose fragments do not reach
+   themselves: all checks of the A-J decomposition (fields within a set, fields against a
+   spread fragment, fragment against fragment, between the sub-selections of two fields;
+   with the exclusivity flag, parent types, argument equality and return-type conflicts)
+   pass on every selection set of the document  <->  every two fields reachable from one
+   selection set through any chain of inline fragments and fragment spreads that share a
+   response key are compatible, recursively (the brute-force layer L1). *)
+Theorem C02_overlap_decomposition : forall S D,
+  acyclic S D -> (L2_accepts S D <-> L1_accepts S D).
+Proof. exact overlap_decomposition. Qed.
+Print Assumptions C02_overlap_decomposition.
+
+(* The same for any symmetric, flag-monotone test on two fields and any family of
+   selection sets containing the fragment bodies. *)
+Theorem C02_overlap_decomposition_generic : forall S D base,
+  (forall ex a b, base ex a b = base ex b a) ->
+  (forall a b, base false a b = true -> base true a b = true) ->
+  forall sets : fset -> Prop, (forall g b, fbody S D g = Some b -> sets b) ->
+  acyclic S D ->
+  ((forall s, sets s -> within S D base s) <-> (forall s, sets s -> L1 S D base s)).
+Proof. exact decomposition_iff. Qed.
+Print Assumptions C02_overlap_decomposition_generic.
+
+(* Simple rules: the rule's model reports an error exactly when the rule is violated. *)
+Theorem C02_rule_iff_unique_operation_names : forall W,
+  rule_unique_operation_names W <> [] <-> Violates_unique_operation_names W.
+Proof. exact unique_operation_names_iff. Qed.
+Print Assumptions C02_rule_iff_unique_operation_names.
+
+Theorem C02_rule_iff_unique_fragment_names : forall W,
+  rule_unique_fragment_names W <> [] <-> Violates_unique_fragment_names W.
+Proof. exact unique_fragment_names_iff. Qed.
+Print Assumptions C02_rule_iff_unique_fragment_names.
+
+Theorem C02_rule_iff_unique_variable_names : forall W,
+  rule_unique_variable_names W <> [] <-> Violates_unique_variable_names W.
+Proof. exact unique_variable_names_iff. Qed.
+Print Assumptions C02_rule_iff_unique_variable_names.
+
+Theorem C02_rule_iff_unique_argument_names : forall S W,
+  rule_unique_argument_names S W <> [] <-> Violates_unique_argument_names S W.
+Proof. exact unique_argument_names_iff. Qed.
+Print Assumptions C02_rule_iff_unique_argument_names.
+
+Theorem C02_rule_iff_lone_anonymous_operation : forall W,
+  rule_lone_anonymous W <> [] <-> Violates_lone_anonymous W.
+Proof. exact lone_anonymous_iff. Qed.
+Print Assumptions C02_rule_iff_lone_anonymous_operation.
+
+Theorem C02_rule_located_lone_anonymous_operation : forall W x,
+  In x (rule_lone_anonymous W) -> exists o, In o (w_ops W) /\ wo_name o = None /\ wo_id o = x.
+Proof. exact lone_anonymous_located. Qed.
+Print Assumptions C02_rule_located_lone_anonymous_operation.
+
+Theorem C02_rule_iff_known_fragment_names : forall S W,
+  rule_known_fragment_names S W <> [] <-> Violates_known_fragment_names S W.
+Proof. exact known_fragment_names_iff. Qed.
+Print Assumptions C02_rule_iff_known_fragment_names.
+
+Theorem C02_rule_located_known_fragment_names : forall S W x,
+  In x (rule_known_fragment_names S W) ->
+  exists pt id g, In (ISpread pt id x g) (doc_items S W) /\ ~ In g (map wf_name (w_frags W)).
+Proof. exact known_fragment_names_located. Qed.
+Print Assumptions C02_rule_located_known_fragment_names.
+
+Theorem C02_rule_iff_scalar_leafs : forall S W,
+  rule_scalar_leafs S W <> [] <-> Violates_scalar_leafs S W.
+Proof. exact scalar_leafs_iff. Qed.
+Print Assumptions C02_rule_iff_scalar_leafs.
+
+Theorem C02_rule_iff_fields_on_correct_type : forall S W,
+  rule_fields_on_correct_type S W <> [] <-> Violates_fields_on_correct_type S W.
+Proof. exact fields_on_correct_type_iff. Qed.
+Print Assumptions C02_rule_iff_fields_on_correct_type.
+
+Theorem C02_rule_located_fields_on_correct_type : forall S W x,
+  In x (rule_fields_on_correct_type S W) ->
+  exists t nm args ssid hs, In (IField (Some t) None x nm args ssid hs) (doc_items S W).
+Proof. exact fields_on_correct_type_located. Qed.
+Print Assumptions C02_rule_located_fields_on_correct_type.
+
+Theorem C02_rule_iff_known_directives : forall S W,
+  rule_known_directives S W <> [] <-> Violates_known_directives S W.
+Proof. exact known_directives_iff. Qed.
+Print Assumptions C02_rule_iff_known_directives.
+
+Theorem C02_rule_iff_known_argument_names : forall S W,
+  rule_known_argument_names S W <> [] <-> Violates_known_argument_names S W.
+Proof. exact known_argument_names_iff. Qed.
+Print Assumptions C02_rule_iff_known_argument_names.
+
+Theorem C02_rule_iff_provided_non_null_arguments : forall S W,
+  rule_provided_non_null_arguments S W <> [] <-> Violates_provided_non_null_arguments S W.
+Proof. exact provided_non_null_arguments_iff. Qed.
+Print Assumptions C02_rule_iff_provided_non_null_arguments.
+
+Theorem C02_rule_iff_no_undefined_variables : forall S W,
+  rule_no_undefined_variables S W <> [] <-> Violates_no_undefined_variables S W.
+Proof. exact no_undefined_variables_iff. Qed.
+Print Assumptions C02_rule_iff_no_undefined_variables.
+
+Theorem C02_rule_iff_no_unused_variables : forall S W,
+  rule_no_unused_variables S W <> [] <-> Violates_no_unused_variables S W.
+Proof. exact no_unused_variables_iff. Qed.
+Print Assumptions C02_rule_iff_no_unused_variables.
+
+(* ---- non-vacuity ---- *)
+Definition exS : schema :=
+  {| s_types := [("String", TScalar SString);
+                 ("Q", TObject [{| f_name := "a"; f_args := []; f_type := TNamed "String" |};
+                                {| f_name := "b"; f_args := []; f_type := TNamed "String" |}] [])];
+     s_query := "Q"; s_mutation := None |}.
+(* { x: a ...F } fragment F on Q { ...G } fragment G on Q { x: b } *)
+Definition exD : document :=
+  {| d_ops := [{| o_kind := OpQuery; o_name := None; o_vars := [];
+                  o_sel := [SField 2 (Some "x") "a" [] [] []; SSpread 7 "F" []] |}];
+     d_frags := [{| fr_name := "F"; fr_cond := "Q"; fr_sel := [SSpread 30 "G" []] |};
+                 {| fr_name := "G"; fr_cond := "Q"; fr_sel := [SField 56 (Some "x") "b" [] [] []] |}] |}.
+
+Example C02_nonvacuous_model :
+  acyclic_b exD = true /\ L1b exS exD 50 = false /\ run_overlap exS exD true 50 = [2%N] /\
+  run_overlap exS exD false 50 = [2%N].
+Proof. repeat split; vm_compute; reflexivity. Qed.
+
+Example C02_nonvacuous_rules :
+  rule_lone_anonymous {| w_ops := [ {| wo_id := 0; wo_kind := OpQuery; wo_name := None; wo_vars := [];
+                                       wo_dirs := []; wo_ssid := 0; wo_sel := [] |};
+                                    {| wo_id := 9; wo_kind := OpQuery; wo_name := Some (15%N, "A"); wo_vars := [];
+                                       wo_dirs := []; wo_ssid := 17; wo_sel := [] |} ]; w_frags := [] |} = [0%N].
+Proof. vm_compute. reflexivity. Qed.
